@@ -600,10 +600,13 @@ def _mutable_defaults_of_model_kinds(ctx):
     sys.modules[mod.__name__] = mod
     source = """
 from decimal import Decimal
-from typing import Any, Dict, List
+from typing import Any, Dict, List, NamedTuple
 from dataclasses import dataclass, field
 import attrs
 from pydantic import BaseModel
+class NTDef20(NamedTuple):
+    a: int
+    hops: tuple = ([], {'ttl': [64]})
 class PM(BaseModel):
     a: int
     x: Any = [Decimal(1)]
@@ -627,6 +630,25 @@ class AM:
     except ImportError:
         ctx.count("optional_package_missing")
         return
+    # an immutable default that HOLDS mutable containers (seeded change: tuple defaults hoisted to one shared constant)
+    NT = mod.NTDef20
+
+    class Init:
+        def __init__(self, a: int, bounds: tuple = ([0, 0], [640, 480])):
+            self.a, self.bounds = a, bounds
+    for cls, name in ((NT, "hops"), (Init, "bounds")):
+        for dt in DebugTrail:
+            r = Retort(debug_trail=dt)
+            m1, m2 = r.load({"a": 1}, cls), r.load({"a": 2}, cls)
+            ctx.evaluated(("directed-tuple-defaults", cls.__name__, dt.name), nontrivial=True)
+            ctx.count("load_call_pairs")
+            inner1, inner2 = [x for x in getattr(m1, name)], [x for x in getattr(m2, name)]
+            if any(a is b for a, b in zip(inner1, inner2)):
+                ctx.violation("results-share-container:load:default:tuple", f"{cls.__name__}.{name}: two loads that leave the field absent share a container inside the tuple", {"model": cls.__name__, "mode": dt.name})
+            inner1[0].append("edited")
+            m3 = r.load({"a": 3}, cls)
+            if "edited" in list(getattr(m3, name))[0]:
+                ctx.violation("later-result-changed-by-editing-an-earlier-one:tuple-default", f"{cls.__name__}: after editing a loaded object the next load gives {getattr(m3, name)!r}", {"model": cls.__name__, "mode": dt.name})
     for cls in (mod.PM, mod.DM, mod.AM):
         for dt in DebugTrail:
             r = Retort(debug_trail=dt)
